@@ -169,3 +169,46 @@ Lemma ex_parity_drop :
   option_map fe_next feA = Some 3 /\
   match ex_fec with Some e => fe_hoff e = cipher_hdr toyK CCrc | None => False end.
 Proof. vm_compute. repeat split; reflexivity. Qed.
+
+(* ---- C05, session part.  The guards are necessary as well as sufficient: the same loop with the
+   lower bound of `int(sz) <= len(r) && sz >= 2` removed reaches the slice fault on a recovered
+   shard whose size field is 0 - e.g. the "recovery" a lazily created 1+1 decoder performs on one
+   forged 12-byte parity datagram. *)
+From KV.Frame Require Import Input InputProofs.
+
+Definition feed_recovered_weak (core : list (bytes * Z)) (r : bytes) : gres (list (bytes * Z)) :=
+  if 2 <=? blen r then
+    match g_u16 0 r with
+    | None => GPanic S_recsize
+    | Some sz =>
+      if sz <=? blen r then
+        match g_slice 2 sz r with
+        | None => GPanic S_recslice
+        | Some x => GOk (ex_core_input core x c_IKCP_PACKET_FEC)
+        end
+      else GOk core
+    end
+  else GOk core.
+
+Definition ex_forged_parity : bytes := [1; 0; 0; 0; 242; 0; 0; 0; 9; 9; 9; 9].   (* seqid 1, 0x00f2, size bytes 00 00 *)
+Definition ex_dec_copy (log : list bytes) (b : bytes) : list bytes * list bytes := (log ++ [b], [skipn 6 b]).
+Definition ex_rx_nofec : rxstate (list (bytes * Z)) (list bytes) := mkRx _ _ [] None true.
+
+Lemma ex_input_total :
+  (* the real guards: the shard with size field 0 is ignored *)
+  feed_recovered_g _ ex_core_input [] (skipn 6 ex_forged_parity) = GOk [] /\
+  (* without the lower bound: the fault of r[2:0] *)
+  feed_recovered_weak [] (skipn 6 ex_forged_parity) = GPanic S_recslice /\
+  (* the whole demultiplexer on that datagram, session without FEC (lazy 1+1 decoder, which "recovers" a copy) *)
+  kcp_input_g _ _ ex_core_input (fun _ _ => []) ex_dec_copy ex_rx_nofec ex_forged_parity =
+    GOk (mkRx _ _ [] (Some [ex_forged_parity]) true, []) /\
+  (* a recovered shard with a sane size field does reach the core, stripped of the size prefix *)
+  feed_recovered_g _ ex_core_input [] [5; 0; 7; 8; 9; 0; 0] = GOk [([7; 8; 9], c_IKCP_PACKET_FEC)] /\
+  (* size field larger than the shard, size field 1, one-byte shard, empty shard: ignored *)
+  map (feed_recovered_g _ ex_core_input []) [[9; 0; 1]; [1; 0; 1]; [3]; []] = [GOk []; GOk []; GOk []; GOk []] /\
+  (* listener peek: a 12-byte parity packet has no readable conv, a 12-byte OOB packet has *)
+  listener_peek_g ex_forged_parity = GOk PkNoConv /\
+  listener_peek_g [1; 0; 0; 0; 243; 0; 6; 0; 68; 51; 34; 17] = GOk (PkConv 287454020 0) /\
+  (* a read the guards do not cover would fault: the model can tell *)
+  g_u16 4 [1; 2; 3; 4; 5] = None.
+Proof. vm_compute. repeat split; reflexivity. Qed.
